@@ -36,7 +36,7 @@ SYM = ["get_ode_eqn", "get_jacobian_eqn", "get_grad_eqn", "get_StateChangeMatrix
 
 
 def plan(tier):
-    n = 192 if tier == "quick" else 2400
+    n = 192 if tier == "quick" else 1400
     return [{"lane": "main", "n": n, "timeout": 1200 if tier == "quick" else 3400, "min_per_shard": 4}]
 
 
